@@ -86,7 +86,7 @@ func newC17Cache(expire time.Duration, limit int) (*c17cache, error) {
 	old.Stop()
 	cc := &c17cache{c: c, tk: tk, limit: limit}
 	cc.base = g0 + 2 // the cache's statistics loop and the new wheel's run loop
-	if !c17WaitGoroutines(cc.base, 20*time.Second) {
+	if !c17WaitGoroutines(cc.base, 60*time.Second) {
 		return nil, fmt.Errorf("goroutines after construction: have %d want <= %d\n%s", runtime.NumGoroutine(), cc.base, c17Stacks())
 	}
 	return cc, nil
@@ -138,7 +138,7 @@ func (cc *c17cache) settle() error {
 	if err := cc.c.timingWheel.RemoveTimer("\x00barrier"); err != nil {
 		return fmt.Errorf("barrier command: %v", err)
 	}
-	if !c17WaitGoroutines(cc.base, 20*time.Second) {
+	if !c17WaitGoroutines(cc.base, 60*time.Second) {
 		return fmt.Errorf("goroutines did not settle: have %d want <= %d\n%s", runtime.NumGoroutine(), cc.base, c17Stacks())
 	}
 	return nil
@@ -166,8 +166,8 @@ func c17Stacks() string {
 func (cc *c17cache) tick(settled bool) error {
 	select {
 	case cc.tk.c <- time.Time{}:
-	case <-time.After(20 * time.Second):
-		return fmt.Errorf("tick not accepted by the run loop")
+	case <-time.After(120 * time.Second):
+		return fmt.Errorf("tick not accepted by the run loop\n%s", c17Stacks())
 	}
 	cc.T++
 	if settled {
